@@ -96,3 +96,10 @@ add(
     "Trusts numpy ufuncs inside each op's domain; carriers follow the callers (+inf outside the log-space carrier; per-operand dynamic range below the exp underflow range for einsum).",
     "DESIGN.md section 3 C15",
 )
+add(
+    "C18",
+    "property-based testing: generated expressions of the compiler fragment x bindings; differential between compile_funsor, pickled program, exec of the printed source, trace_function and the reference evaluator",
+    "Bounded exploration of 1-3 expressions (unary, non-commutative binary, matmul, getitem, output reductions with axis/keepdims, reshape, getslice, shared subexpressions, constants, real and integer inputs) built under reflect/lazy/normalize: the compiled program, its pickle round trip, the executed as_code() source and a traced ops function must all equal the oracle; missing/unexpected kwargs must raise.",
+    "Trusts vf/lang.py; compiler NotImplementedError (e.g. python slices, reductions in Contraction) and tracer errors are declines.",
+    "DESIGN.md section 3 C18",
+)
